@@ -285,18 +285,19 @@ Fixpoint find_method (ms : list (bytes * bool * N)) (n : bytes) : option (bool *
   | (m, p, id) :: r => if beq m n then Some (p, id) else find_method r n
   end.
 
-(* the key under which evalIndexCallee rebinds the indexed element *)
-Fixpoint callee_key_loop (ggg : list bytes) (calleeS : bytes) : bytes :=
-  match ggg with
-  | _ :: ((_ :: _) as r) =>
-      if contains (concat_sep [46] r) calleeS then concat_sep [46] r else callee_key_loop r calleeS
-  | [x] => x
-  | [] => []
+(* the key under which evalIndexCallee rebinds the indexed element: the name held by the
+   placeholder identifier that assign_callee put at the root of the expression after the index
+   (calleePlaceholder); the printed left side when there is none *)
+Definition callee_root (callee : expr) : option bytes :=
+  match callee with
+  | EIdent _ (Some s) _ => Some s
+  | EIndex (EIdent _ (Some s) _) _ _ _ => Some s
+  | ECall _ _ (Some (EIdent _ pre names)) _ _ _ =>
+      match pre with Some s => Some s | None => match names with s :: _ => Some s | [] => None end end
+  | _ => None
   end.
-Definition callee_key (leftS calleeS : bytes) : bytes :=
-  if contains [46] leftS then
-    (if contains leftS calleeS then leftS else callee_key_loop (split_on 46 leftS) calleeS)
-  else leftS.
+Definition callee_key (leftS : bytes) (callee : expr) : bytes :=
+  match callee_root callee with Some s => s | None => leftS end.
 
 Definition R := res (value * state).
 Definition rbind {A B} (m : res A) (k : A -> res B) : res B :=
@@ -719,7 +720,7 @@ Definition index_callee_step (self : evals) (st : state) (x : value) (leftS : by
       let octx := scur st in
       let '(st1, n) := cnew st in
       let st2 := with_cur (copy_data st1 octx n) n in
-      let st3 := set_in st2 n (callee_key leftS (estr callee)) x in
+      let st3 := set_in st2 n (callee_key leftS callee) x in
       rfinal (fun s => with_cur s octx) (r_eval self st3 callee).
 
 Definition eval_call_step (self : evals) (st : state) (fn : expr) (callee : option expr) (args : list expr) (blk : option block) (chain : expr) : R :=
